@@ -86,6 +86,8 @@ class Gen:
         k = top or self.r.choice(kinds)
         if k == "record" and self.use_ns and self.r.random() < 0.05:
             return self.shadow_schema()
+        if k == "record" and self.defaults and self.r.random() < 0.06:
+            return self.defaults_schema()
         return self.typ(self.max_depth, "", force=k, under_union=False, safe_rec=False)
 
     def shadow_schema(self):
@@ -139,6 +141,50 @@ class Gen:
         if r.random() < 0.5:
             outer["fields"].append(fld("w", use(x["full"])))
         return outer
+
+    def defaults_schema(self):
+        """A record whose defaults are easy to get wrong: several by-name references to one enum with different defaults, and
+        defaults that are nested non-empty containers."""
+        r = self.r
+        ns = self.pick_ns("")
+        d = {"k": "record", "full": self.full(ns, self.fresh("D")), "ns": ns, "fields": [], "aliases": []}
+        self.defs[d["full"]] = d
+        self.open.append(d["full"])
+
+        def fld(name, t, hasdef=False, default=None):
+            return {"name": name, "type": t, "hasdef": hasdef, "default": default, "aliases": []}
+        self._forced = (ns, self.fresh("E"))
+        e = self.typ(0, ns, force="enum")
+        while len(e["syms"]) < 3:
+            e["syms"].append([x for x in SYMS if x not in e["syms"]][0])
+        d["fields"].append(fld("t0", e, r.random() < 0.5, e["syms"][0]))
+        syms = list(e["syms"])
+        r.shuffle(syms)
+        for i in range(r.choice([2, 2, 3])):
+            d["fields"].append(fld("t%d" % (i + 1), {"k": "ref", "full": e["full"]}, r.random() < 0.85, syms[i]))
+        leaf = r.choice(["int", "long", "string", "double", "boolean"])
+        lv = {"int": [1, -2, 3], "long": [2 ** 40, 0, -1], "string": ["x", "é", ""], "double": [1.5, -2.0, 0.25], "boolean": [True, False, True]}[leaf]
+        lt = {"k": "prim", "name": leaf}
+        shape = r.choice(["aa", "ma", "am", "mm", "aaa"])
+        if shape == "aa":
+            t, dv = {"k": "array", "items": {"k": "array", "items": lt}}, [[lv[0], lv[1]], [lv[2]]]
+        elif shape == "ma":
+            t, dv = {"k": "map", "values": {"k": "array", "items": lt}}, {"k1": [lv[0]], "é": [lv[1], lv[2]]}
+        elif shape == "am":
+            t, dv = {"k": "array", "items": {"k": "map", "values": lt}}, [{"k1": lv[0]}, {"k2": lv[1], "k1": lv[2]}]
+        elif shape == "mm":
+            t, dv = {"k": "map", "values": {"k": "map", "values": lt}}, {"o": {"i": lv[0], "j": lv[1]}}
+        else:
+            t, dv = {"k": "array", "items": {"k": "array", "items": {"k": "array", "items": lt}}}, [[[lv[0]], [lv[1], lv[2]]]]
+        d["fields"].append(fld("nest", t, True, dv))
+        for fn in r.sample(["a", "b", "c", "id"], r.choice([0, 1, 2])):
+            d["fields"].append(fld(fn, self.typ(1, ns)))
+        r.shuffle(d["fields"])
+        if not any(f["name"] == "t0" for f in d["fields"][:1]):
+            # the definition must come before the references: move t0 first
+            d["fields"].sort(key=lambda f: f["name"] != "t0")
+        self.open.pop()
+        return d
 
     def typ(self, depth, ns, force=None, under_union=False, safe_rec=False):
         r = self.r
